@@ -636,12 +636,16 @@ func (g *G) mutate(mo *HModel) string {
 
 func (g *G) hostileModel() (string, *HModel) {
 	user := HRestr{Type: lit("user")}
-	switch g.n("hostileFlavour", 0, 7) {
+	flavour := g.n("hostileFlavour", 0, 8)
+	if flavour == 7 && g.focus != "" {
+		flavour = 6 // see dag-blowup
+	}
+	switch flavour {
 	case 0:
 		// DAG blow-up: r_i = r_{i+1} op r_{i+1}; 2^k paths for a walker without memo
 		k := g.n("dagK", 2, 18)
-		// (the fuzz targets run in-process: a validation that never ends would burn a core of
-		// the fuzz worker for the rest of its life, so the known blow-up is left to TestC19)
+		// (fuzz targets: the known blow-ups below cost 6-17 s per execution and are TestC19's
+		// business; the fuzz engine is kept on the inputs that answer quickly)
 		if g.focus != "" && k > 14 {
 			k = 14
 		}
@@ -707,6 +711,16 @@ func (g *G) hostileModel() (string, *HModel) {
 				Restr: []HRestr{user, {Type: lit("doc"), Rel: lit("viewer")}}},
 		}}
 		return "hostile:direct-operand-tower", &HModel{Schema: "1.1", Types: []HType{{Name: lit("user")}, td}}
+	case 8:
+		// a condition whose cost explodes with the size of its list parameter, used by tuples
+		// whose stored context carries a long list (Scenario adds them): every query that meets
+		// such a tuple evaluates it (bounded only by the evaluation cost limit)
+		c := HCond{Key: lit("hc"), Expr: celHostile[g.n("heavyCel", 0, 1)](g), Params: stdParams()}
+		td := HType{Name: lit("doc"), Rels: []HRel{
+			{Name: lit("viewer"), RW: &HRW{K: "this"}, Restr: []HRestr{user, {Type: lit("user"), Cond: lit("hc")}}},
+			{Name: lit("can_view"), RW: &HRW{K: "computed", Rel: lit("viewer")}},
+		}}
+		return "hostile:heavy-condition", &HModel{Schema: "1.1", Types: []HType{{Name: lit("user")}, td}, Conds: []HCond{c}}
 	case 5:
 		// empty / degenerate
 		switch g.n("degenerate", 0, 3) {
@@ -1190,6 +1204,11 @@ func (g *G) Scenario() Case {
 	c.ModelVia = pickOf(g, "modelVia", []string{"api", "api", "both", "both", "direct"})
 	v := vocabOf(c.Model)
 	c.Tuples = g.tupleGroups(v)
+	if c.ModelSrc == "hostile:heavy-condition" {
+		// 2000 numbers: about the 32 KiB that Write accepts as a condition context
+		heavy := &HCtx{ListN: pickOf(g, "heavyListN", []int{300, 2000, 2000, 50000}), Fields: map[string]any{"x": 1e18, "s": "a", "m": map[string]any{"a": "b"}, "ip": "10.0.0.1"}}
+		c.Tuples = append(c.Tuples, TupleGroup{Kind: "fanout-users", OType: "doc", Rel: "viewer", UType: "user", N: 3, Cond: "hc", Ctx: heavy})
+	}
 	n := g.n("nReqs", 3, 10)
 	for i := 0; i < n; i++ {
 		c.Reqs = append(c.Reqs, g.req(v))
